@@ -289,6 +289,42 @@ def dropCommit (db : Db) (n : Nat) : Db := { db with noCommit := n :: db.noCommi
 
 end Db
 
+/-! ## Histories of a pruning node -/
+
+/-- Chain operations of a node that prunes. `prune e` is one trigger of the pruner service:
+`PruneUpto(e)` and the retention floor kept in step (the service raises it to `e - 1`; the harness
+re-seeds it from the database, which gives the same value) when the floor is in use. -/
+inductive DOp
+  | store (b : Block)
+  | revert
+  | setL1 (l : Option Nat)
+  | setL1Zero
+  | prune (e : Nat)
+  | seed
+deriving Repr, Inhabited
+
+def applyDOp (db : Db) : DOp → Db
+  | .store b => (db.store b).getD db
+  | .revert => (db.revert).getD db
+  | .setL1 l => { db with nd := setL1 db.nd l }
+  | .setL1Zero => { db with nd := setL1Zero db.nd }
+  | .prune e => if db.floor.isSome then (db.pruneUpto e).seed else db.pruneUpto e
+  | .seed => db.seed
+
+/-- The database after a history, starting empty (floor unseeded). -/
+def runDb (ops : List DOp) : Db := ops.foldl applyDOp {}
+
+/-- The same history on a node that never prunes. -/
+def DOp.plain : DOp → Option Op
+  | .store b => some (.store b)
+  | .revert => some .revert
+  | .setL1 l => some (.setL1 l)
+  | .setL1Zero => some .setL1Zero
+  | .prune _ => none
+  | .seed => none
+
+def plainOps (ops : List DOp) : List Op := ops.filterMap DOp.plain
+
 /-! ## rpc/v10 over the records -/
 
 namespace D10
